@@ -17,7 +17,7 @@ RULE = ("all matrices over the integer palette with n rows, s sensitive and o ot
         "others in order, (d) transform(X2) applies the training means/coefficients, (e) DataFrame-by-name == ndarray-by-position. "
         "non-trivial = some sensitive column is non-constant and some other column is correlated with it; distinct = distinct matrices")
 ASSUMPTIONS = ["entries from a small integer palette (selected by VERIF_SEED); n<=4", "pinv-based projection is the reference least-squares solution"]
-CLASSES = ["integer_dtype_input", "constant_sensitive_column", "collinear_sensitive_columns", "two_or_more_sensitive", "dataframe_by_name", "alpha_fraction",
+CLASSES = ["sensitive_columns_of_different_scale", "integer_dtype_input", "constant_sensitive_column", "collinear_sensitive_columns", "two_or_more_sensitive", "dataframe_by_name", "alpha_fraction",
            "transform_new_data"]
 PALETTES = [(0, 1, 2), (0, 1, 3), (-1, 0, 2), (1, 2, 4)]
 ALPHAS = [1.0, 0.0, 0.5, 0.3]
@@ -129,6 +129,19 @@ def run_case(case):
                     np.round(Z2, 6).tolist(), np.round(exp2, 6).tolist(), X2.tolist(), ctx), exp2.tolist(), Z2.tolist(), snip))
             if lname == "first" and alpha == 1.0:
                 outcome = np.round(Z, 9).tolist()
+            # sensitive columns of wildly different scale: the projection (hence the output) does not depend on the scale of a sensitive column
+            if s >= 2 and alpha == 1.0 and lname in ("first", "middle"):
+                out["classes"].add("sensitive_columns_of_different_scale")
+                out["evals"] += 1
+                Xs = X.copy()
+                Xs[:, spos[0]] *= 2.0 ** 24
+                try:
+                    Zs = np.asarray(CorrelationRemover(sensitive_feature_ids=spos, alpha=1.0).fit_transform(Xs), float)
+                    if not np.allclose(Zs, exp, rtol=0, atol=1e-6 * scale):
+                        V.append(viol("C15:scaled-sensitive-column", "with sensitive column %d multiplied by 2^24 the output is %r, expected the unchanged residual %r (%s)" % (
+                            spos[0], np.round(Zs, 6).tolist(), np.round(exp, 6).tolist(), ctx), exp.tolist(), Zs.tolist()))
+                except Exception as e:
+                    V.append(viol("C15:scaled-raises-%s" % type(e).__name__, "scaled sensitive column raised %r (%s)" % (e, ctx)))
             # integer-dtype input (ndarray and DataFrame) must give the same result as the same numbers as floats
             if alpha in (1.0, 0.5) and float(np.abs(X - np.round(X)).max()) == 0.0:
                 out["classes"].add("integer_dtype_input")
